@@ -112,7 +112,21 @@ def run(ctx):
     for v in r3.violations:
         v.rule = "R12.3"
         v.key = v.key.replace("R19.2", "R12.3", 1)
-    return [rule_R12_1(ctx), rule_R12_2(ctx), r3]
+    import c05
+    r4 = c05.rule_R05_3(ctx)
+    r4.rule = "R12.4"
+    r4.title = "every object value is built around a fresh map cell (an object literal, also a spread-only one, never aliases an operand)"
+    r4.necessary_for = "an aliased literal makes a write to one object change another (`every other property unchanged` fails)"
+    for v in r4.violations:
+        v.rule = "R12.4"
+        v.key = v.key.replace("R05.3", "R12.4", 1)
+    r5 = c05.rule_R05_4(ctx)
+    r5.rule = "R12.5"
+    for v in r5.violations:
+        v.rule = "R12.5"
+        v.key = v.key.replace("R05.4", "R12.5", 1)
+    r5.violations = [v for v in r5.violations if "Object" in v.key]
+    return [rule_R12_1(ctx), rule_R12_2(ctx), r3, r4, r5]
 
 
 META = {
